@@ -8,6 +8,7 @@ import Proofs.C14.Musig
 import Proofs.C14.Wallet
 import Proofs.C14.Tr
 import Proofs.C14.Toy
+import Proofs.C14.CoreImport
 /-!
 # C14 — descriptors and wallets derive what they describe and recognise only their own
 
@@ -805,5 +806,111 @@ example :
   decide +kernel
 
 end T3
+
+
+/-! ## `core_import`: the ranges handed to and read back from Bitcoin Core
+
+`Model/C14/CoreImport.lean` mirrors `_assert_key_range`, `_range_fields`, the guards of `import_request`, `_comparable`,
+`widened_range`, and — over decoded JSON values `J`, through the guards `fields_from_json_object` /
+`list_from_json_array` / `int_from_json_number` — `watched_range` and `assert_imported`.  DEFAULT_RANGE,
+_MAX_RANGE_SPAN and the shift of `end >> 31` are regenerated from `btclib/core_import.py` each run. -/
+section CoreImport
+open Btc.CoreImport Gen.Descriptor
+
+/-- `_assert_key_range` accepts exactly Core's `ParseDescriptorRange` ranges, with the constants of the current source:
+    `0 ≤ start ≤ end < 2^31`, fewer than a million indexes between the ends; DEFAULT_RANGE is one. -/
+theorem core_key_range_iff (r : Range) :
+    (keyRangeOk r = true ↔ 0 ≤ r.1 ∧ r.1 ≤ r.2 ∧ r.2 < 2 ^ 31 ∧ r.2 - r.1 < 1000000) ∧
+    CORE_DEFAULT_RANGE = (0, 999) ∧ keyRangeOk CORE_DEFAULT_RANGE = true := by
+  refine ⟨?_, by decide, by decide⟩
+  have h1 : (2 : Int) ^ CORE_END_SHIFT = 2 ^ 31 := by decide
+  have h2 : CORE_MAX_RANGE_SPAN = 1000000 := by decide
+  simp only [keyRangeOk, Bool.and_eq_true, decide_eq_true_eq, h1, h2]
+  constructor
+  · rintro ⟨⟨⟨a, b⟩, c⟩, d⟩; exact ⟨a, b, c, d⟩
+  · rintro ⟨a, b, c, d⟩; exact ⟨⟨⟨a, b⟩, c⟩, d⟩
+
+/-- `widened_range` never narrows: what it answers contains the range wanted AND the range watched (DEFAULT_RANGE for a
+    descriptor the wallet does not hold), and asking again with the answer as the watched range changes nothing — the
+    second import of a descriptor is idempotent. -/
+theorem core_widened_range_never_narrows (wanted : Range) (watched : Option Range) (r : Range)
+    (h : widenedRange wanted watched = some r) :
+    r.1 ≤ wanted.1 ∧ wanted.2 ≤ r.2 ∧
+      r.1 ≤ (watched.getD CORE_DEFAULT_RANGE).1 ∧ (watched.getD CORE_DEFAULT_RANGE).2 ≤ r.2 ∧
+      widenedRange wanted (some r) = some r :=
+  have hc := widenedRange_covers wanted watched r h
+  ⟨hc.1, hc.2.1, hc.2.2.1, hc.2.2.2, widenedRange_idem wanted watched r h⟩
+
+example : widenedRange (5, 2000) (some (0, 999)) = some (0, 2000) ∧ widenedRange (5, 20) none = some (0, 999) ∧
+    widenedRange (20, 5) none = none ∧ widenedRange (0, 1000000) none = none := by decide
+
+/-- `watched_range` on a reply shaped as `listdescriptors` documents it (one object per descriptor with its `desc` and,
+    when ranged, its `range`): nothing is refused and the answer is the union of the ranges of the entries holding the
+    same expression (checksum and hardening spelling aside) — the smallest range containing each, both ends attained —
+    and `None` exactly when no ranged entry holds it. -/
+theorem core_watched_range_is_union (d : List Char) (es : List Entry) :
+    watchedRangeJ d (replyOf es) = .ok (watchedRange d es) ∧
+    (∀ r, watchedRange d es = some r →
+      (∀ x ∈ matching d es, r.1 ≤ x.1 ∧ x.2 ≤ r.2) ∧ (∃ x ∈ matching d es, x.1 = r.1) ∧ (∃ x ∈ matching d es, x.2 = r.2)) ∧
+    (watchedRange d es = none ↔ matching d es = []) :=
+  ⟨watchedRangeJ_replyOf d es, fun r h => unionOf_spec _ r (by rw [← watchedRange_eq_unionOf]; exact h),
+    watchedRange_none_iff d es⟩
+
+/-- `watched_range` on ANY decoded reply (hostile ones included): it answers only when the reply is an object whose
+    `descriptors` is an array every entry of which reads through the guards, and then with the union of the collected
+    ranges; every other reply is a BTClibTypeError / BTClibValueError (the model has no other outcome — that the REAL
+    function has none either is the `core.watched` stream and the `core.hostile` oracle). -/
+theorem core_watched_range_on_any_reply (d : List Char) (reply : J) (o : Option Range)
+    (h : watchedRangeJ d reply = .ok o) :
+    ∃ kv ds l rs, reply = .obj kv ∧ kv.lookup "descriptors".toList = some ds ∧ ds = .arr l ∧
+      collectRanges (comparable d) l = .ok rs ∧ o = unionOf rs ∧
+      ∀ r, o = some r → (∀ x ∈ rs, r.1 ≤ x.1 ∧ x.2 ≤ r.2) ∧ (∃ x ∈ rs, x.1 = r.1) ∧ (∃ x ∈ rs, x.2 = r.2) := by
+  obtain ⟨kv, ds, l, rs, h1, h2, h3, h4, h5⟩ := watchedRangeJ_ok d reply o h
+  exact ⟨kv, ds, l, rs, h1, h2, h3, h4, h5, fun r hr => unionOf_spec rs r (by rw [← h5, hr])⟩
+
+/-- hostile replies of the audit: a 5000-digit bound, a one-element range, an entry without `desc`, a reply that is
+    not an object — each refused with the library's own exception class. -/
+example :
+    let big : J := .str (List.replicate 5000 '9')
+    let entry (r : J) : J := .obj [("desc".toList, .str "pk(x)".toList), ("range".toList, r)]
+    let reply (e : J) : J := .obj [("descriptors".toList, .arr [e])]
+    watchedRangeJ "pk(x)".toList (reply (entry (.arr [big, .str ['5']]))) = .error .value ∧
+    watchedRangeJ "pk(x)".toList (reply (entry (.arr [.int 1]))) = .error .value ∧
+    watchedRangeJ "pk(x)".toList (reply (.obj [])) = .error .value ∧
+    watchedRangeJ "pk(x)".toList (.arr []) = .error .type ∧
+    watchedRangeJ "pk(x)".toList (reply (entry (.arr [.bool true, .int 3]))) = .error .type ∧
+    watchedRangeJ "pk(x)".toList (reply (entry (.arr [.float none, .int 3]))) = .error .value ∧
+    watchedRangeJ "pk(x)#abc".toList (reply (entry (.arr [.str ['7'], .float (some 9)]))) = .ok (some (7, 9)) ∧
+    watchedRangeJ "pk(y)".toList (reply (entry (.arr [.int 1]))) = .ok none := by
+  decide +kernel
+
+/-- `assert_imported` passes exactly when both arguments are arrays of the same length, every request and every answer
+    is an object, and every answer's `success` is truthy; a length mismatch or an answer not honoured is a
+    BTClibRuntimeError, a wrong shape a BTClibTypeError. -/
+theorem core_assert_imported_iff (requests answers : J) :
+    assertImportedJ requests answers = .ok () ↔
+      ∃ rq an, requests = .arr rq ∧ answers = .arr an ∧ rq.length = an.length ∧ ∀ p ∈ rq.zip an, Honoured p := by
+  unfold assertImportedJ
+  cases requests with
+  | arr rq =>
+    cases answers with
+    | arr an =>
+      simp only [J.list, bind, Except.bind]
+      by_cases hl : rq.length = an.length
+      · simp only [hl, ne_eq, not_true_eq_false, if_false, importedLoop_ok_iff]
+        constructor
+        · intro h; exact ⟨rq, an, rfl, rfl, hl, h⟩
+        · rintro ⟨rq', an', e1, e2, _, h⟩; cases e1; cases e2; exact h
+      · simp only [ne_eq, hl, not_false_eq_true, if_true, reduceCtorEq, false_iff, not_exists, not_and]
+        rintro rq' an' e1 e2 hl'; cases e1; cases e2; exact absurd hl' hl
+    | _ => simp [J.list, bind, Except.bind]
+  | _ => simp [J.list, bind, Except.bind]
+
+example : assertImportedJ (.arr [.obj []]) (.arr [.obj [("success".toList, .bool true)]]) = .ok () ∧
+    assertImportedJ (.arr [.obj []]) (.arr [.obj [("success".toList, .bool false)]]) = .error .runtime ∧
+    assertImportedJ (.arr [.obj []]) (.arr []) = .error .runtime ∧
+    assertImportedJ (.arr [.obj []]) (.arr [.int 1]) = .error .type := by decide +kernel
+
+end CoreImport
 
 end Props.C14
